@@ -23,10 +23,14 @@ Chk(cond, tag) == IF cond THEN TRUE ELSE TLCSet(1, <<l, tag>>) /\ FALSE
 \* other properties are evaluated and reported (NONFOCUS) but do not reject the trace, so that one
 \* property's known defect cannot mask another property's predicates later in the same run.
 Focus(pid) == ("F_" \o pid) \in DOMAIN IOEnv \/ "F_ALL" \in DOMAIN IOEnv
+\* With F_CONTINUE set a false focused predicate is reported (VIOL line) and the trace goes on, so that
+\* exhaustive sweeps list every failing case instead of stopping at the first.
 ChkP(cond, pids, what) ==
     IF cond THEN TRUE
     ELSE IF \E q \in pids : Focus(q)
-         THEN TLCSet(1, <<l, "P:" \o (CHOOSE q \in pids : Focus(q)) \o ":" \o what>>) /\ FALSE
+         THEN IF "F_CONTINUE" \in DOMAIN IOEnv
+              THEN PrintT(<<"VIOL", l, "P:" \o (CHOOSE q \in pids : Focus(q)) \o ":" \o what>>)
+              ELSE TLCSet(1, <<l, "P:" \o (CHOOSE q \in pids : Focus(q)) \o ":" \o what>>) /\ FALSE
          ELSE PrintT(<<"NONFOCUS", l, pids, what>>)
 
 \* progress register (2): highest event index consumed
